@@ -157,6 +157,17 @@ def sym_targets(ctx, cfg):
 
 
 # ------------------------------------------------------------------ K4 / K5 --
+ARGNAME = {"expmass": "expmass_column", "calcmass": "calcmass_column", "ret_time": "rt_column", "filename": "filename_column"}
+
+
+def _naming(cfg):
+    """-> (case, kwargs): how a reserved / optional column is spelt in the file, and the explicit *_column arguments
+    for the optional columns that carry a user-chosen name (cfg['named'])"""
+    case0 = CASINGS[cfg.get("casing", 2)]
+    named = cfg.get("named") or {}
+    return (lambda c: named.get(c, case0(c))), {ARGNAME[k]: v for k, v in named.items()}
+
+
 def _pin_table(ctx, cfg):
     """symbolic PIN table: reserved columns (case chosen per harness), optional columns,
     nf features with a symbolic NaN bit per cell, labels in the given encoding."""
@@ -164,7 +175,7 @@ def _pin_table(ctx, cfg):
     from symx import sympd, core
     from symx.core import SNum, SBool
     n, nf, enc = cfg["rows"], cfg["features"], cfg["encoding"]
-    case = CASINGS[cfg.get("casing", 2)]
+    case, _ = _naming(cfg)
     cols = {}
     cols[case("specid")] = list(range(n))
     if enc == "bool":
@@ -266,7 +277,7 @@ def sym_read(ctx, cfg):
     stubs.MODE[0] = "nondet" if cfg.get("sched") else "submission"
     inputs = dict(table=df, column_chunk=cc, row_chunk=rc)
     try:
-        ds = P.read_percolator(p, max_workers=2, **(dict(charge_column="Charge") if cfg.get("charge_others") is not None else {}))
+        ds = P.read_percolator(p, max_workers=2, **(dict(charge_column="Charge") if cfg.get("charge_others") is not None else {}), **_naming(cfg)[1])
     except Unsupported:
         raise
     except Exception as ex:
@@ -329,6 +340,8 @@ def harnesses(tier):
              dict(rows=1, features=1, encoding="pm1", optional=[], colchunk=[3, 5], casing=2, charge_others=1),
              dict(rows=1, features=1, encoding="pm1", optional=[], colchunk=[3, 5], casing=2, charge_others=0),
              dict(rows=2, features=1, encoding="zero", optional=[], colchunk=[2, 4], casing=0, rotate=3),
+             dict(rows=1, features=1, encoding="pm1", optional=["expmass", "calcmass"], colchunk=[3, 6], casing=2, named={"expmass": "ObsMass", "calcmass": "TheoMass"}),
+             dict(rows=1, features=1, encoding="pm1", optional=["expmass", "calcmass", "ret_time"], colchunk=[3, 7], casing=2, named={"calcmass": "TheoMass", "ret_time": "RT_min"}),
              dict(rows=1, features=2, encoding="bool", optional=["expmass", "ret_time", "filename", "calcmass"], colchunk=[3, 7], casing=1, suffix=".parquet")]
     if tier == "thorough":
         reads += [dict(rows=2, features=3, encoding="pm1", optional=["expmass", "ret_time"], colchunk=[2, 8], casing=3, rotate=2, sched=True),
@@ -385,7 +398,7 @@ def real_read(cfg, inp):
     import mokapot
     import mokapot.parsers.pin as P
     df = _real_table(inp)
-    case = CASINGS[cfg.get("casing", 2)]
+    case, named_kw = _naming(cfg)
     n = len(df)
     old = (P.CHUNK_SIZE_COLUMNS_FOR_DROP_COLUMNS, P.CHUNK_SIZE_ROWS_FOR_DROP_COLUMNS)
     P.CHUNK_SIZE_COLUMNS_FOR_DROP_COLUMNS, P.CHUNK_SIZE_ROWS_FOR_DROP_COLUMNS = int(inp["column_chunk"]), int(inp["row_chunk"])
@@ -397,7 +410,7 @@ def real_read(cfg, inp):
             else:
                 df.to_csv(p, sep="\t", index=False)
             try:
-                ds = mokapot.read_pin(p, max_workers=2, **(dict(charge_column="Charge") if cfg.get("charge_others") is not None else {}))[0]
+                ds = mokapot.read_pin(p, max_workers=2, **(dict(charge_column="Charge") if cfg.get("charge_others") is not None else {}), **named_kw)[0]
             except Exception as ex:
                 return dict(exception=repr(ex), violation="read_pin raised %r (columns %s, column chunk %s)" % (ex, list(df.columns), inp["column_chunk"]))
     finally:
